@@ -64,12 +64,10 @@ theorem exprHook_jsxfree (o : Opts) (env : Env) (pos : Pos) (k : K) (as : List S
     · exact ⟨rfl, rfl⟩
 
 theorem kindHook_identity (o : Opts) (env : Env) (hrt : o.resolveType = false) (k : K) (as : List String) (ks : List Node)
-    (st : St) (hk : isJsxKind k = false) (hq : Quiet st) :
+    (st : St) (hk : isJsxKind k = false) :
     (kindHook o env (.mk k as ks) st).1 = .mk k as ks ∧ (kindHook o env (.mk k as ks) st).2.forget = st.forget := by
   unfold kindHook
   split
-  · rename_i heq; injection heq with h1 h2 h3; subst h1 h2 h3; simp [drainInto_quiet _ _ hq]
-  · simp [drainArrow_quiet _ _ hq]
   · rename_i heq; injection heq with h1; subst h1; simp [isJsxKind] at hk
   · exact ⟨rfl, importHook_forget _ _⟩
   · simp [ifaceHook, hrt]
@@ -77,6 +75,13 @@ theorem kindHook_identity (o : Opts) (env : Env) (hrt : o.resolveType = false) (
   · simp [callHook, hrt]
   · simp [declaratorHook, hrt]
   · exact ⟨rfl, rfl⟩
+
+theorem clearPending_quiet (st : St) (hq : Quiet st) : st.clearPending = st := by
+  cases st; simp_all [St.clearPending, Quiet]
+
+theorem restore_quiet (st' : St) (c v : List Node) (hq : Quiet st') (hc : c = []) (hv : v = []) :
+    ({ st' with injectingConsts := c, injectingVars := v } : St) = st' := by
+  cases st'; simp_all [Quiet]
 
 mutual
 /-- THE IDENTITY THEOREM (traversal level): on a JSX-free tree, with resolveType off and nothing pending, the
@@ -89,17 +94,46 @@ theorem visit_identity (o : Opts) (env : Env) (hrt : o.resolveType = false) :
       simp only [JsxFree, Bool.and_eq_true, Bool.not_eq_true'] at hj; exact hj.1
     have hks : JsxFreeL ks = true := by
       simp only [JsxFree, Bool.and_eq_true] at hj; exact hj.2
-    obtain ⟨ih1, ih2⟩ := visitKids_identity o env hrt ks k pos 0 st hks hq
-    have hq' : Quiet (visitKids o env k pos 0 ks st).2 := quiet_of_forget ih2 hq
-    obtain ⟨hk1, hk2⟩ := kindHook_identity o env hrt k as ks (visitKids o env k pos 0 ks st).2 hk hq'
     unfold visit
-    simp only [ih1]
-    generalize hres : kindHook o env (Node.mk k as ks) (visitKids o env k pos 0 ks st).2 = res at hk1 hk2 ⊢
-    obtain ⟨rn, rst⟩ := res
-    simp only at hk1 hk2
-    subst hk1
-    have he := exprHook_jsxfree o env pos k as ks rst hk
-    exact ⟨he.1, he.2.trans (hk2.trans ih2)⟩
+    split
+    next =>
+      -- a statement list
+      obtain ⟨ih1, ih2⟩ := visitKids_identity o env hrt ks .stmts pos 0 st hks hq
+      have hq' : Quiet (visitKids o env .stmts pos 0 ks st).2 := quiet_of_forget ih2 hq
+      simp only [clearPending_quiet st hq, ih1, drainInto_quiet _ _ hq']
+      rw [restore_quiet _ _ _ hq' hq.2 hq.1]
+      exact ⟨trivial, ih2⟩
+    next params rest =>
+      -- an arrow function
+      simp only [JsxFreeL, Bool.and_eq_true] at hks
+      obtain ⟨p1, p2⟩ := visit_identity o env hrt params (kidPos .arrow pos 0) st hks.1 hq
+      have hqp : Quiet (visit o env params (kidPos .arrow pos 0) st).2 := quiet_of_forget p2 hq
+      obtain ⟨r1, r2⟩ := visitKids_identity o env hrt rest .arrow pos 1 _ hks.2 hqp
+      have hqr : Quiet (visitKids o env .arrow pos 1 rest (visit o env params (kidPos .arrow pos 0) st).2).2 := quiet_of_forget r2 hqp
+      simp only [p1, clearPending_quiet _ hqp, r1, drainArrow_quiet _ _ hqr]
+      have hfin : ({ (visitKids o env .arrow pos 1 rest (visit o env params (kidPos .arrow pos 0) st).2).2 with
+            injectingConsts := (visit o env params (kidPos .arrow pos 0) st).2.injectingConsts ++
+              (visitKids o env .arrow pos 1 rest (visit o env params (kidPos .arrow pos 0) st).2).2.injectingConsts,
+            injectingVars := (visit o env params (kidPos .arrow pos 0) st).2.injectingVars ++
+              (visitKids o env .arrow pos 1 rest (visit o env params (kidPos .arrow pos 0) st).2).2.injectingVars } : St)
+          = (visitKids o env .arrow pos 1 rest (visit o env params (kidPos .arrow pos 0) st).2).2 := by
+        apply restore_quiet _ _ _ hqr
+        · simp [hqp.2, hqr.2]
+        · simp [hqp.1, hqr.1]
+      rw [hfin]
+      have he := exprHook_jsxfree o env pos .arrow as (params :: rest)
+        (visitKids o env .arrow pos 1 rest (visit o env params (kidPos .arrow pos 0) st).2).2 (by rfl)
+      exact ⟨he.1, he.2.trans (r2.trans p2)⟩
+    next =>
+      obtain ⟨ih1, ih2⟩ := visitKids_identity o env hrt ks k pos 0 st hks hq
+      obtain ⟨hk1, hk2⟩ := kindHook_identity o env hrt k as ks (visitKids o env k pos 0 ks st).2 hk
+      simp only [ih1]
+      generalize hres : kindHook o env (Node.mk k as ks) (visitKids o env k pos 0 ks st).2 = res at hk1 hk2 ⊢
+      obtain ⟨rn, rst⟩ := res
+      simp only at hk1 hk2
+      subst hk1
+      have he := exprHook_jsxfree o env pos k as ks rst hk
+      exact ⟨he.1, he.2.trans (hk2.trans ih2)⟩
 theorem visitKids_identity (o : Opts) (env : Env) (hrt : o.resolveType = false) :
     ∀ (ks : List Node) (k : K) (pos : Pos) (i : Nat) (st : St), JsxFreeL ks = true → Quiet st →
       (visitKids o env k pos i ks st).1 = ks ∧ (visitKids o env k pos i ks st).2.forget = st.forget
@@ -162,7 +196,7 @@ theorem C09_module_identity (o : Opts) (env : Env) (hrt : o.resolveType = false)
   have h2 := visitKids_identity o env hrt rest .module .normal 1 _ hjr hq1
   have hq2 := quiet_of_forget h2.2 hq1
   have hfin := hf0 _ (h2.2.trans h1.2)
-  simp only [transformModule, h1.1, h2.1, drainInto_quiet _ _ hq2, hfin.1, hfin.2.1, hfin.2.2]
+  simp only [transformModule, h1.1, h2.1, finishModule, drainInto_quiet _ _ hq2, hfin.1, hfin.2.1, hfin.2.2]
   simp
 
 -- non-vacuity: a JSX-free tree with assignments, arrows, statement lists and an import from 'vue'
